@@ -94,6 +94,16 @@ impl ChunkSerializer {
         force_uncompressed: bool,
         can_be_dropped: bool,
     ) -> Result<Packet, ChunkSerializationError> {
+        #[cfg(feature = "verif")]
+        ::verif::tap(::verif::SerializedHeader {
+            type_id: message.type_id,
+            message_stream_id: message.message_stream_id,
+            timestamp: message.timestamp.value,
+            length: message.data.len(),
+            force_uncompressed,
+            can_be_dropped,
+        });
+
         if message.data.len() > 16777215 {
             return Err(ChunkSerializationError::MessageTooLong {
                 size: message.data.len() as u32,
